@@ -272,8 +272,17 @@ def _names_ok(*names):
     return True
 
 
+def _valued(names):
+    """VP_VALUED cells: the two names are a definition name plus a value ("d/<x>", "D/<y>") - the same definition
+    in another letter case with possibly different values; they are the same process iff the WHOLE names agree"""
+    if R.env_int("VP_VALUED"):
+        return ("d/" + names[0], "D/" + names[1])
+    return names
+
+
 def _history(n, names, markers):
     """markers: (kind, which, t, label) -> list per time point of (kind, name, label)"""
+    names = _valued(names)
     hist = []
     for t in range(n):
         here = []
@@ -510,6 +519,12 @@ def _cover_cells(nmax, kmax, split_from):
 
 
 def _scan_cells(nmax, split3):
+    plain = _scan_cells_plain(nmax, split3)
+    valued = [dict(c, VP_VALUED=1) for c in plain if c["VP_K"] >= 2]
+    return plain + valued
+
+
+def _scan_cells_plain(nmax, split3):
     """(rows, number of markers); 3-marker cells are split by the kinds of the first 2 (or all 3) markers"""
     cells = []
     for n in range(1, nmax + 1):
@@ -599,7 +614,8 @@ HARNESSES = [
                               _TE + "set_end"],
         quick=R.tier(cells=_scan_cells(3, False), env={"VP_N": 3, "VP_M": 3}, timeout=400,
                      bound="valid histories of 0..3 Onset/Offset markers of two names (each exactly 1 printable-ASCII "
-                           "char, possibly equal up to case) placed on 1..3 time points, <= 3 markers per point"),
+                           "char, possibly equal up to case; in the VP_VALUED cells the names are 'd/<x>' and 'D/<y>', "
+                           "one definition with two values) placed on 1..3 time points, <= 3 markers per point"),
         thorough=R.tier(cells=_scan_cells(4, True), env={"VP_N": 4, "VP_M": 3}, timeout=1500, path_timeout=60,
                         bound="as quick on 1..4 time points"),
         what="driving the real per-row function over the history: every Onset opens a process at its time point; an "
